@@ -121,11 +121,16 @@ InClasses(ins) == {[R |-> RecKey(n), k |-> OneLevelKey(n)] : n \in SeqOpNodes(in
 NClassesC(cls, R) == Cardinality({p \in cls : p.R = R})
 NClasses(ins, R) == NClassesC(InClasses(ins), R)
 
-\* recursive keys of everything in or inside a pre-existing wrapper that has a prefix
-PrefixedRs(ins) ==
-    {RecKey(n) : n \in UNION {OpNodes(w) : w \in {x \in SeqWrappers(ins) : x.prefix # ""}}}
+\* recursive keys of everything in or inside a pre-existing wrapper that has a prefix AND
+\* whose own child is among the badly shared operations (round 4: the known class is "the
+\* prefixed wrapper's child does not end up in the one shared wrapper", which drags along
+\* everything inside that child; an operation that merely stands somewhere below a prefixed
+\* wrapper whose child IS properly shared is not explained by it)
+PrefixedRs(ins, badRs) ==
+    {RecKey(n) : n \in UNION {OpNodes(w) : w \in {x \in SeqWrappers(ins) :
+                                                     x.prefix # "" /\ RecKey(x.a) \in badRs}}}
 SharingPattern(ins, badRs) ==
-    IF badRs \subseteq PrefixedRs(ins) THEN "in-preexisting-prefixed-wrapper" ELSE "plain"
+    IF badRs \subseteq PrefixedRs(ins, badRs) THEN "in-preexisting-prefixed-wrapper" ELSE "plain"
 
 \* attribution of a sharing failure: "kind of the parent : child position" of every
 \* occurrence of a badly shared operation in the outputs that has no wrapper directly
@@ -424,7 +429,18 @@ KeyOf(e) ==
 \*   WalkDedupsSharedOperands  an operand object that stands several times among the children
 \*                             of one node (sum, product, call, quotient, ...) is walked once
 \*   WalkSkipsSeenObjects      an object the walk has met before (anywhere) is not looked at again
+\* Round 4: when the walk first meets a PRE-EXISTING wrapper it must go on below the wrapper
+\* (the code calls rec on the wrapper's child: the child and everything below it is counted like
+\* any other expression).  Negative controls that cut this descent:
+\*   WrapperCountStopsAtChild  only the wrapper's direct child is counted (visit, no descent):
+\*                             what stands at depth >= 2 below the wrapper is never counted
+\*   WrapperCountSkipsChild    nothing below a pre-existing wrapper is counted at all
 IdentityBugs == {"WalkDedupsSharedOperands", "WalkSkipsSeenObjects"}
+\* visit() alone: count the node, do not descend
+UCVisitOnly(e, st) ==
+    LET k == KeyOf(e)  cnt == st.cnt IN
+    IF k \in DOMAIN cnt THEN [st EXCEPT !.cnt = [cnt EXCEPT ![k] = @ + 1]]
+    ELSE [st EXCEPT !.cnt = cnt @@ (k :> 1)]
 RECURSIVE UCWalk(_, _, _, _)
 UCWalkKids(ctx, e, path, st) ==
     LET ks == Kids(e)
@@ -445,7 +461,9 @@ UCWalk(ctx, e, path, st) ==
          IN
          IF k \in DOMAIN cnt THEN [st0 EXCEPT !.cnt = [cnt EXCEPT ![k] = @ + 1]]
          ELSE IF e.t = "CSE" THEN
-             LET s1 == UCWalk(ctx, e.a, Append(path, 1), st0)
+             LET s1 == IF Bug = "WrapperCountStopsAtChild" THEN UCVisitOnly(e.a, st0)
+                       ELSE IF Bug = "WrapperCountSkipsChild" THEN st0
+                       ELSE UCWalk(ctx, e.a, Append(path, 1), st0)
                  c1 == s1.cnt
              IN [s1 EXCEPT !.cnt = [x \in DOMAIN c1 \cup {k} |-> IF x = k THEN 1 ELSE c1[x]]]
          ELSE UCWalkKids(ctx, e, path, [st0 EXCEPT !.cnt = cnt @@ (k :> 1)])
